@@ -11,3 +11,4 @@ pub mod iofault;
 pub mod bq;
 pub mod c07gen;
 pub mod props;
+pub mod fuzzdec;
